@@ -204,6 +204,43 @@ fn adversarial(rep: &mut Report, tier: &Tier) {
     }
 }
 
+/// (5) NFT histories: the C13 producer histories in which an NFT is minted (with and without
+/// change) and, one to three blocks later, its payload is or is not spent on its own, through two
+/// window wraps, with the conservation oracle after every accepted block.
+fn nft_histories(rep: &mut Report, tier: &Tier) {
+    use super::c13::{run_history_with, Act, Step};
+    let mut hs: Vec<(u64, Vec<Step>)> = vec![];
+    for g in if tier.thorough { vec![3u64, 4] } else { vec![3u64] } {
+        let n = (2 * g + 5) as usize;
+        for fee in [0u64, 6_000] {
+            let base: Vec<Step> = (0..n).map(|i| Step { act: Act::Pay(fee), gt: i % 2 == 1, fork_before: false }).collect();
+            for mint in [Act::NftCreate, Act::NftCreateNoChange] {
+                for p1 in 0..n.saturating_sub(g as usize + 2) {
+                    let mut s = base.clone();
+                    s[p1].act = mint.clone();
+                    hs.push((g, s.clone()));
+                    for d in 1..=3usize {
+                        if p1 + d < n {
+                            let mut s2 = s.clone();
+                            s2[p1 + d].act = Act::SpendNftPayload;
+                            hs.push((g, s2));
+                        }
+                    }
+                }
+            }
+        }
+    }
+    let results = par_map(&hs, workers(), |_, (g, steps)| {
+        let mut r = rep.child();
+        r.evaluations += 1;
+        run_history_with(*g, steps, 8, true, &mut r);
+        r
+    });
+    for r in results {
+        rep.merge(r);
+    }
+}
+
 pub fn main(tier: Tier, _replay: Option<String>) -> i32 {
     let mut rep = Report::new("C02", tier.clone(), "model_checking");
     rep.bounds = json!({"producer_histories": "the C07 script set (g=3, g=3+staking, g=4; 2g+4 rounds; <=1 (quick) / <=2 (thorough) deviations; exhaustive two-round prefixes)", "trees": "all shapes of n blocks over a 4-block stem at g=3, two delivery orders", "amount_sweep": "all output vectors of length <=3 over 8 boundary values"});
@@ -229,6 +266,7 @@ pub fn main(tier: Tier, _replay: Option<String>) -> i32 {
     trees(&mut rep, &tier);
     sweep(&mut rep);
     adversarial(&mut rep, &tier);
+    nft_histories(&mut rep, &tier);
     rep.sample(json!({"script": format!("{:?}", ss[1].rounds), "g": ss[1].g}));
     rep.finish()
 }
